@@ -681,7 +681,7 @@ func (e *MetaCDC) validCreateRequest(req *request.CreateRequest) error {
 			cdcwriter.DialConfigOption(milvusConnectParam.DialConfig),
 		)
 		if err != nil {
-			log.Warn("fail to connect the milvus", zap.Any("connect_param", milvusConnectParam), zap.Error(err))
+			log.Warn("fail to connect the milvus", zap.String("uri", GetMilvusURI(milvusConnectParam)), zap.Error(err))
 			return errors.WithMessage(err, "fail to connect the milvus")
 		}
 	} else if kafkaConnectParam.Address != "" {
@@ -690,7 +690,7 @@ func (e *MetaCDC) validCreateRequest(req *request.CreateRequest) error {
 			cdcwriter.KafkaTopicOption(kafkaConnectParam.Topic),
 		)
 		if err != nil {
-			log.Warn("fail to connect the kafka", zap.Any("connect_param", kafkaConnectParam), zap.Error(err))
+			log.Warn("fail to connect the kafka", zap.String("address", kafkaConnectParam.Address), zap.String("topic", kafkaConnectParam.Topic), zap.Error(err))
 			return errors.WithMessage(err, "fail to connect the kafka")
 		}
 	}
